@@ -323,6 +323,7 @@ func (e *Engine) cmdCheck(prop, tier, evid, known, replayDir string, replay bool
 		all = append(all, e.mnemonicTableObligations()...)
 		all = append(all, e.textOrderObligations()...)
 		all = append(all, e.printFormObligations()...)
+		all = append(all, e.reversedTableObligations()...)
 	case "C06":
 		// keyword case does not change what a zone file denotes: the mnemonic lookups fold the token first
 		for _, ob := range e.mnemonicTableObligations() {
